@@ -7,6 +7,10 @@ var (
 	// ErrKeyOutOfOrder means keys to create Trie are not ascendingly ordered.
 	ErrKeyOutOfOrder = errors.New("keys not ascending sorted")
 
+	// ErrStepTooLong means adjacent keys share a run of bytes that is too long
+	// (more than 65535 half-bytes) to be indexed without the InnerPrefix option.
+	ErrStepTooLong = errors.New("shared key segment too long for a 16-bit step")
+
 	// ErrIncompatible means it is trying to unmarshal data from an incompatible
 	// version.
 	ErrIncompatible = errors.New("incompatible with marshaled data")
